@@ -25,6 +25,7 @@ RICH_SCALARS = [
     ['s', 'int', 10 ** 30], ['s', 'int', -17], ['s', 'int', 0], ['s', 'float', 1.5], ['s', 'float', 'inf'], ['s', 'float', '-inf'],
     ['s', 'float', 1e-300], ['s', 'none', None], ['s', 'bool', False], ['s', 'enum', ['Color', 'BLUE']], ['s', 'enum', ['Mode', 'FAST']],
     ['s', 'str', 'pickle__TA__0000'], ['s', 'float', 2.0], ['s', 'enum', ['Level', 'HIGH']], ['s', 'enum', ['Kind', 'IRIS']],
+    ['s', 'str', 'undecodable-\udcff\udce9.csv'],      # what os.fsdecode() makes of a file name that is not valid UTF-8
 ]
 RICH_KEYS = ['k', 'key with space', 'ü', 'a.b', 'Z', 'z', '0']
 
@@ -194,6 +195,11 @@ class HistoryCheck(Check):
                     failed = ref.failing(ex_set, {int(k) for k in fail})
                     gen = 100 + lab_gen[0]          # the context belongs to the Lab object
                     sc = dict(base)
+                    if len(roots) == 1 and not fail and ops.chance(1, 2):
+                        sc['run_task'] = True          # through Lab.run_task() instead of run_tasks()
+                        probes['op-run_task'] = 1
+                    else:
+                        sc.pop('run_task', None)
                     sc.update({'requested': [[i, 1 if ops.chance(1, 4) else 0] for i in roots], 'backend': backend,
                                'bust_cache': bust, 'gen_main': gen, 'skip_warm': True, 'observe_after': False,
                                'observe_before': False, 'cached': sorted(model), 'fail': fail})
